@@ -143,9 +143,13 @@ PROPS['C09']['explanation'] += (' No receive is left unmatched at shutdown: shut
 from . import rules_ss as ss
 from . import rules_mk as mk
 
+# coroutines whose messages must be labelled under a counter of their own, or they are matched with another call's receives
+ROUTING = ['Runtime.transfer', 'Runtime.input', 'Runtime._distribute', 'Runtime.output', 'Runtime._reshare']
+
 PROPS['C07'] = {
-    'rules': [R(ss.rule_SS6), R(ss.rule_SO1), R(ss.rule_SS4), R(mk.rule_MK4), R(mk.rule_NR1), R(pc.rule_PC6)],
-    'floors': {'SS6': 8, 'SO1': 4, 'SS4': 9, 'MK4': 6, 'NR1': 1, 'PC6': 8},
+    'rules': [R(ss.rule_SS6), R(ss.rule_SO1), R(ss.rule_SS4), R(mk.rule_MK4), R(mk.rule_NR1), R(pc.rule_PC6),
+              R(pc.rule_PC1, scope=ROUTING)],
+    'floors': {'SS6': 8, 'SO1': 4, 'SS4': 9, 'MK4': 6, 'NR1': 1, 'PC6': 8, 'PC1': 5},
     'explanation': 'Decides who sends what to whom: for output, _reshare, transfer and _distribute the (sender, receiver) pairs implied by '
                    'the send guard equal those implied by the receive enumeration, as offset intervals modulo m normalised from the '
                    'expression syntax (SS6); result slots are indexed by the position in the sender list (SO1); the x-coordinate of every '
@@ -198,9 +202,10 @@ PROPS['C15'] = {
              'the polynomial identity itself is not proved.',
 }
 PROPS['C19'] = {
-    'rules': [R(mk.rule_MK3), R(mk.rule_MK4)],
-    'floors': {'MK3': 9, 'MK4': 6},
-    'explanation': 'Destinations of output/transfer messages derive only from the receivers arguments (default all parties only under `is None`), '
+    'rules': [R(mk.rule_MK3), R(mk.rule_MK4), R(ss.rule_MK6)],
+    'floors': {'MK3': 9, 'MK4': 6, 'MK6': 4},
+    'explanation': 'In the graph form of transfer the parties a message is sent to are the heads of the arcs leaving the sender, in the list and '
+                   'in the dict representation (MK6). Destinations of output/transfer messages derive only from the receivers arguments (default all parties only under `is None`), '
                    'non-receivers never collect or recombine (MK4); every _output implementation (SecureFloat, secure groups, secure polynomials) '
                    'forwards receivers and threshold unchanged to each nested opening; SecureFloat\'s only extra interaction is a fresh input by a '
                    'receiver and a resharing product (MK3).',
@@ -216,14 +221,17 @@ INT_PROTOCOLS = ['mul', 'prod', 'all', 'in_prod', 'scalar_mul', '_if_else_list',
                  'reciprocal', 'output', '_reshare']
 
 PROPS['C11'] = {
-    'rules': [R(pa.rule_SS1), R(pa.rule_NL1), R(ss.rule_SS2), R(ss.rule_SS4), R(ss.rule_SS6), R(pc.rule_PC9), R(fr.rule_KEY1), R(ss.rule_PR1)],
-    'floors': {'SS1': 60, 'NL1': 25, 'SS2': 2, 'SS4': 9, 'SS6': 9, 'PC9': 14, 'KEY1': 9, 'PR1': 12},
+    'rules': [R(pa.rule_SS1), R(pa.rule_NL1), R(ss.rule_SS2), R(ss.rule_SS3), R(ss.rule_SS4), R(ss.rule_SS6), R(pc.rule_PC9), R(fr.rule_KEY1), R(ss.rule_PR1),
+              R(pc.rule_PC1)],
+    'floors': {'SS1': 60, 'NL1': 25, 'SS2': 2, 'SS3': 9, 'SS4': 9, 'SS6': 9, 'PC9': 14, 'KEY1': 9, 'PR1': 12, 'PC1': 40},
     'explanation': 'Degree typestate of every share by abstract interpretation of all protocol coroutines (PUB / SEC / SH(d) with path forking on '
                    'the recurring flags): no value of degree 2t is returned, wrapped as a secure object, truncated or multiplied again without '
                    'passing _reshare, and a degree-2t value is opened only with a threshold covering it (SS1); only field-linear local operations '
                    'are applied to plain shares (NL1); dealing uses the current threshold (SS2); resharing deals from and collects for the same '
                    '2t+1 parties at the right points (SS4, SS6); all parties feed PRSS with the same fresh input, their own id and PRFs of the '
-                   'current keys, and zero-sharings have d = t coefficients (PC9, KEY1, PR1).',
+                   'current keys, and zero-sharings have d = t coefficients (PC9, KEY1, PR1); the dealing polynomial has the secret as its '
+                   'constant term and t fresh coefficients, evaluated at the points 1..m (SS3); no coroutine without a program counter of its '
+                   'own exchanges shares after its first await, where they would be matched with those of another call (PC1).',
     'assumptions': ['secure objects handed to a coroutine are degree-t sharings (induction over the program)',
                     'flags named sh* / isinstance(.., SecureObject) tell whether an operand is shared'],
     'level': 'Static abstract interpretation (no execution) of the protocol coroutines over a degree/randomness lattice, plus provenance and routing '
@@ -246,13 +254,16 @@ PROPS['C18'] = {
              'genuine defects (np_pow mask bound, _mod quotient mask), both repaired.',
 }
 PROPS['C01'] = {
-    'rules': [R(pa.rule_SS1, scope=INT_PROTOCOLS), R(pa.rule_NL1, scope=INT_PROTOCOLS), R(ss.rule_SS4), R(ss.rule_SS6), R(pc.rule_PC9, scope=['Runtime.' + x for x in INT_PROTOCOLS] + ['Runtime._randoms'])],
-    'floors': {'SS1': 25, 'NL1': 12, 'SS4': 9, 'SS6': 9, 'PC9': 8},
+    'rules': [R(pa.rule_SS1, scope=INT_PROTOCOLS), R(pa.rule_NL1, scope=INT_PROTOCOLS), R(ss.rule_SS4), R(ss.rule_SS6), R(pc.rule_PC9, scope=['Runtime.' + x for x in INT_PROTOCOLS] + ['Runtime._randoms']),
+              R(pc.rule_PC1, scope=['Runtime.' + x for x in INT_PROTOCOLS]), R(ss.rule_PR1)],
+    'floors': {'SS1': 25, 'NL1': 12, 'SS4': 9, 'SS6': 9, 'PC9': 8, 'PC1': 20, 'PR1': 12},
     'explanation': 'Plumbing clauses for the integer protocols (mul, prod, all, in_prod, scalar_mul, if_else/if_swap lists, matrix_prod, sgn, lsb, _mod, '
                    'trailing_zeros, is_zero_public, _is_zero, gauss, ...): every product of two shared values is degree-reduced or opened with 2t '
                    'before reuse (SS1); shares are only combined linearly -- no bitwise or comparison operator is applied to a share as if it were '
                    'the value (NL1); recombination uses the dealt points and each receiver collects exactly the shares sent to it (SS4, SS6); PRSS '
-                   'inputs are fresh and common (PC9). These are the parts that differ between m = 1 and m > 1.',
+                   'inputs are fresh and common (PC9); each of these coroutines exchanges messages only under a program counter of its own (PC1); '
+                   'the PRSS zero-sharings that re-randomise opened products have degree 2t with constant term 0 (PR1). These are the parts '
+                   'that differ between m = 1 and m > 1.',
     'assumptions': ['the integer identities of the protocols (Toft comparison, lsb, divsteps) are correct as algorithms: not decided here'],
     'level': 'Static abstract interpretation and routing analysis restricted to the integer protocol coroutines. Decides necessary conditions that the '
              'single-party test suite cannot exercise; does not decide the arithmetic identities.',
